@@ -8,7 +8,7 @@ ID = 'C09'
 LEVEL = 'fault_enumeration'
 RULE = ('every formula cell (and array formula) of every workbook in turn made to fail -- unknown function, plugin '
         'raising always, plugin raising on its 1st / 2nd call only -- in plain and iterative mode; all follow-up '
-        'histories up to the stated depth over {evaluate(any cell/range), set_value(input, v), repair = '
+        'histories up to the stated depth (plus the depth-4 patterns evaluate, repair, write an input, evaluate in both orders) over {evaluate(any cell/range), set_value(input, v), repair = '
         'set_value(failing cell, constant)} are executed on the real compiler. Oracle per operation: evaluating the '
         'failing cell or a descendant (descendants from the specification) while the fault is active raises a '
         'PyCelException subclass; everything else equals a from-scratch model with the current inputs / repair. '
@@ -17,7 +17,7 @@ RULE = ('every formula cell (and array formula) of every workbook in turn made t
 ASSUMPTIONS = ['descendants are computed from the workbook specification, not from pycel\'s graph',
                'a transient fault may surface (as a PyCelException) only in the operation in which the plugin actually raised',
                'from-scratch in-memory compile is the value oracle']
-GROUP = ('mode', 'fault', 'verdict', 'exc', 'repair_ignored')
+GROUP = ('mode', 'fault', 'verdict', 'exc', 'repair_ignored', 'repair_undone')
 
 PYCEL_ERRORS = ('UnknownFunction', 'FormulaEvalError', 'FormulaParserError', 'PyCelException')
 VALUES = [7, 't']
@@ -70,6 +70,7 @@ class Sim:
         self.assign = {}
         self.repaired = False
         self.failed_once = False
+        self.precedent_written_after_repair = False
 
     def affected(self, addr):
         sh, ref = W.split_addr(addr)
@@ -93,6 +94,8 @@ class Sim:
             try:
                 self.m.set_value(op[1], op[2])
                 self.assign[op[1]] = op[2]
+                if self.repaired and any(t in W.descendants(self.deps, op[1]) for t in self.tcells):
+                    self.precedent_written_after_repair = True
                 r = ('set',)
             except AssertionError as exc:
                 r = ('refused',) if 'not found in the cell map' in str(exc) else ('exc', 'AssertionError', [], str(exc)[-200:])
@@ -180,6 +183,13 @@ def repair_ignored(sim, op, res, targets):
     return exp[0] == 'ok' and W.vclose(res[1], exp[1], rel=1e-9, abs_=1e-9)
 
 
+def repair_undone(sim, op, res, targets):
+    """defect model for the known finding 'in plain mode a repaired cell gets its formula back when one of its own
+    precedents is written afterwards': true iff such a write happened after the repair and the observation is exactly
+    what the model yields when the repair is ignored."""
+    return bool(sim.mode == 'plain' and sim.precedent_written_after_repair and repair_ignored(sim, op, res, targets))
+
+
 def histories(ops, depth, quick_patterns):
     yield from ((o,) for o in ops)
     if depth >= 2:
@@ -191,6 +201,14 @@ def histories(ops, depth, quick_patterns):
             yield from itertools.product(evs, mids, evs)
         else:
             yield from itertools.product(ops, repeat=3)
+        # depth 4, patterns only: writes refuse cells that are not in the model yet, so a repair and a later write to
+        # an input only take effect after a first evaluation
+        evs = [o for o in ops if o[0] == 'ev']
+        sets = [o for o in ops if o[0] == 'set']
+        if ('repair',) in ops:
+            first = evs[-2:] if quick_patterns else evs       # quick: first evaluation of the last cell / the range only
+            yield from itertools.product(first, [('repair',)], sets, evs)
+            yield from itertools.product(first, sets, [('repair',)], evs)
 
 
 def run_history(fam, target, kind, mode, hist, targets, acc, base):
@@ -210,6 +228,7 @@ def run_history(fam, target, kind, mode, hist, targets, acc, base):
         if verdict:
             acc.violation(dict(base, hist=jsonable(hist[:k + 1]), verdict=verdict, repaired=sim.repaired,
                                repair_ignored=repair_ignored(sim, op, res, targets),
+                               repair_undone=repair_undone(sim, op, res, targets),
                                exc=res[1] if res[0] == 'exc' else None, observed=jsonable(res[:2])),
                           f"{fam['name']} [{mode}] {target} failing by {kind}; history {list(hist[:k + 1])}: {msg}")
             break
